@@ -1576,10 +1576,11 @@ MANIFEST = {
             "reference DOF renumbered one by one after trimming, modal rows zero; (R7) cbcheck(reorder=True) hands the geometry rows over in the order of the reordered matrices; "
             "(R8) cgmass evaluated entry by entry on the symbolic rigid 6x6 mass M = T^T blkdiag(diag(mx, my, mz), J) T (T = [[1, -skew(d)], [0, 1]]): returned offset = d, "
             "mass at the cg = blkdiag(diag(mx, my, mz), J) (translational block, both coupling blocks zero, rotary block J as polynomial identities), all6 returns the same "
-            "two plus I = J and gyr_i^2 = J_ii / m_i. Not decided: cbcheck's rigid-body, effective-mass and grounding numbers, cgmass's principal-axis results (eigensolution) "
+            "two plus I = J and gyr_i^2 = J_ii / m_i; (R9) cbreorder executed by value on a finite world - M a matrix of distinct symbols, b every ordered selection of 1..4 of 4 DOF "
+            "(ascending or not, leading block or not), drm and last both ways: the result is M taken at (b, q) / (q, b) in the caller's order of b, cell by cell. Not decided: cbcheck's rigid-body, effective-mass and grounding numbers, cgmass's principal-axis results (eigensolution) "
             "and its behaviour on non-rigid or non-symmetric input, numerical accuracy of cbtf.",
     "note": "Trusted: CPython ast; verifier/e2_formula.py, verifier/c06_sem.py, verifier/c06_cgmass.py (numpy semantics of dense arrays of concrete shape: views, broadcasting, "
-            "in-place updates); the USET row layout documented in n2p.addgrid (row 1 location, row 2 ids, row 3 origin, rows 4-6 T).",
+            "in-place updates), verifier/c14_np.py (the by-value numpy interpreter, R9; locate.flippv by its documented meaning); the USET row layout documented in n2p.addgrid (row 1 location, row 2 ids, row 3 origin, rows 4-6 T).",
     "technique": "symbolic evaluation on values (arrays as objects, namespaces by field name, helpers followed, regimes as facts about values) + index-space typing of the "
-                 "evaluated subscripts",
+                 "evaluated subscripts; by-value execution on an exhaustive finite world of index vectors (cbreorder)",
 }
